@@ -331,7 +331,14 @@ func walkMessage(b []byte) {
 				vr.Assert(off+4 <= len(b), "walk:bundle-property-header-fits")
 				pl := walkU16(b, off+2)
 				vr.Assert(pl >= 4 && off+pl <= len(b), "walk:bundle-property-fits")
-				off += (pl + 7) / 8 * 8
+				// the only property type is the experimenter one (0xffff, at least 12 bytes); what
+				// follows it up to the next multiple of 8 is zero padding
+				vr.Assert(walkU16(b, off) == 0xffff && pl >= 12, "walk:bundle-property-is-experimenter")
+				end := off + (pl+7)/8*8
+				for q := off + pl; q < end && q < len(b); q++ {
+					vr.Assert(b[q] == 0, "walk:bundle-property-padding-zero")
+				}
+				off = end
 			}
 			vr.Assert(off == len(b), "walk:bundle-properties-fill-exactly")
 		default:
